@@ -31,6 +31,10 @@ func (c *vfChain) GetHashByNo(no types.BlockNo) ([]byte, error) {
 	if no > c.best {
 		return nil, errVfNoBlock
 	}
+	for _, prev := range c.asked {
+		vf.Assert(prev != no, "C17.a") // a height is never probed twice (the search interval strictly shrinks)
+	}
+	vf.Assert(len(c.asked) < 70, "C17.a") // and the search terminates: at most 64 probes for any range
 	h := vf.Bytes("localHash", 32)
 	c.asked = append(c.asked, no)
 	c.hashes = append(c.hashes, h)
